@@ -112,7 +112,8 @@ Outside(chain, o) == SelectSeq(chain, LAMBDA e : e.lvl >= o)
 (* ---- sentence 3: palette ---- *)
 \* entry: [name, alias (BOOLEAN), like, mono <<flags>>, fg <<colour, <<flags>>>>, bg colour,
 \*         hasfh, fgh <<<<colour, <<flags>>>> at 88, at 256, at 2^24>>, hasbh, bgh <<colour at 88, 256, 2^24>>, largeh,
-\*         fghc, bghc: the high colours as written, when they are hexadecimal RGB (see below)]
+\*         fghc, bghc: the high colours as written, when they are hexadecimal RGB (see below),
+\*         fghe, bghe: the high field is given but names no colour (see "three ways to write a high-colour field")]
 \* colours: -1 default, 0..15 basic, 1000+n indexed, 2^24+rgb true colour (as Terminal.tla)
 SeqSet(s) == {s[j] : j \in 1..Len(s)}
 TrueDepth == 16777216
@@ -146,14 +147,26 @@ HexColourAt(c, depth) ==
        TrueDepth + s[CubeLevel(c, c.r, 256) + 1] * 65536 + s[CubeLevel(c, c.g, 256) + 1] * 256 + s[CubeLevel(c, c.b, 256) + 1]
 HighColour(c, n, depth) == IF c.k = "n" THEN n ELSE HexColourAt(c, depth)
 
+\* Three ways to write a high-colour field (foreground_high / background_high), told apart in the entry record:
+\*   absent (None)      hasfh = FALSE                 "None = use foreground parameter value": colour AND settings of the basic field
+\*   given, no colour   hasfh = TRUE, fghe = TRUE     '' / 'bold' / ...: "If the color is not given then 'default' will be assumed":
+\*                                                    the terminal's own colour, with exactly the settings the field lists (none for '')
+\*   given, a colour    hasfh = TRUE, fghe = FALSE    that colour ('default' is a colour name: the terminal's own colour)
+\* An empty string is a given field, not an absent one: it never inherits the basic colour.
+HighFg(e, k, depth) == IF ~e.hasfh THEN e.fg[1] ELSE IF e.fghe THEN -1 ELSE HighColour(e.fghc, e.fgh[k][1], depth)
+HighBg(e, k, depth) == IF ~e.hasbh THEN e.bg ELSE IF e.bghe THEN -1 ELSE HighColour(e.bghc, e.bgh[k], depth)
 PenFor(e, depth) ==
   IF depth = 1 THEN [fg |-> -1, bg |-> -1, fl |-> SeqSet(e.mono)]                  \* monochrome: settings only
   ELSE IF depth = 16 THEN BasicPen(e)
   ELSE IF depth = 88 /\ e.largeh THEN BasicPen(e)        \* colour numbers above 15 differ at 88 colours: 16-colour values are used
-  ELSE LET k == HighIx(depth) IN                          \* "None = use foreground / background parameter value"
-       [fg |-> IF e.hasfh THEN HighColour(e.fghc, e.fgh[k][1], depth) ELSE e.fg[1],
+  ELSE LET k == HighIx(depth) IN
+       [fg |-> HighFg(e, k, depth),
         fl |-> IF e.hasfh THEN SeqSet(e.fgh[k][2]) ELSE SeqSet(e.fg[2]),
-        bg |-> IF e.hasbh THEN HighColour(e.bghc, e.bgh[k], depth) ELSE e.bg]
+        bg |-> HighBg(e, k, depth)]
+\* deliberately wrong reading (refuted by TLC in AttrFlow.tla): a high field that names no colour is treated like an absent one
+PenForEmptyInherits(e, depth) ==
+  PenFor([e EXCEPT !.hasfh = e.hasfh /\ ~(e.fghe /\ e.fgh[1][2] = <<>> /\ e.fgh[2][2] = <<>> /\ e.fgh[3][2] = <<>>),
+                   !.hasbh = e.hasbh /\ ~e.bghe], depth)
 
 \* (name, like_other_name) copies the settings of an entry that appears before it; the last registration of a name counts
 RECURSIVE EntryOf(_, _, _)
